@@ -1050,7 +1050,12 @@ class Interp:
             if isinstance(a, bool) and isinstance(b, bool):
                 a, b = int(a), int(b)
             return self.compare(a, op, b)
-        return self.arith(op, self.ev(l, env), self.ev(r, env), n.get("t", ""))
+        a_, b_ = self.ev(l, env), self.ev(r, env)
+        if op in ("+", "-") and isinstance(b_, int) and not isinstance(b_, bool) and isinstance(a_, (Vec, Iter)):
+            # pointer arithmetic on an array modelled as Vec: p + k is an iterator into the same array
+            base_, off_ = (a_, 0) if isinstance(a_, Vec) else (a_.v, a_.i)
+            return Iter(base_, off_ + (b_ if op == "+" else -b_))
+        return self.arith(op, a_, b_, n.get("t", ""))
 
     def e_CompoundAssignOperator(self, n, env):
         op = n["op"][:-1]
@@ -1648,6 +1653,25 @@ class Interp:
             return o
         if nm in ("printf", "fprintf", "err_printf", "db_printf", "fflush"):
             return 0
+        if nm in ("fill", "fill_n") and len(args) == 3:
+            b = self.ev(args[0], env)
+            if nm == "fill":
+                e = self.ev(args[1], env)
+                v = self.ev(args[2], env)
+                cnt = None
+            else:
+                cnt = self.ev(args[1], env)
+                v = self.ev(args[2], env)
+                e = None
+            if isinstance(b, Vec):
+                b = Iter(b, 0)
+            if isinstance(b, Iter) and isinstance(b.v, Vec) and (e is None or (isinstance(e, Iter) and e.v is b.v)):
+                hi = e.i if e is not None else b.i + int(cnt)
+                for i_ in range(b.i, hi):
+                    b.v.items[i_] = copy.deepcopy(v) if isinstance(v, (Obj, Vec)) else v
+                return None
+            if isinstance(b, ElemRef) or isinstance(e, ElemRef):
+                raise Unsupported("std::fill over raw pointers into %r" % (b,))
         if nm == "find" and len(args) == 3:
             b, e = self.ev(args[0], env), self.ev(args[1], env)
             v = self.ev(args[2], env)
